@@ -194,6 +194,10 @@ def run_cmd(args, work, char="signed"):
 
 
 def try_native(payload, work):
+    if payload.get("engine") and str(payload.get("failed_obligation", "")).startswith("S."):
+        # static facts about the program text (a new mutable static, a direct libc call): there is no input to replay
+        return {"reproduced": False, "detail": "static fact about the program text (goto symbol table / call sites): no input exists to replay; "
+                "the witness is the offending symbol or call site in 'description'"}
     if payload.get("engine"):
         # closed obligations are evaluated natively on the real code already: the witness IS a failing input
         nat = {"reproduced": True, "detail": "closed obligation evaluated natively on the real tables/comparers/search; witness in 'description'"}
